@@ -124,6 +124,8 @@ func refIndex(w *fix.World, id, x []byte) []byte {
 type HCase struct {
 	Values []gen.Hex `json:"values"`
 	Kind   string    `json:"kind"`
+	// Like: further plaintexts, shaped like stored searchable values of alice's (built when the case is checked)
+	Like []Like `json:"like,omitempty"`
 }
 
 type indexed struct {
@@ -136,6 +138,20 @@ func CheckHashes(c HCase) (vs hx.Vs, nontrivial bool, classes []string) {
 	w := fix.TheWorld()
 	classes = append(classes, "env:"+c.Kind)
 	var all []indexed
+	if len(c.Like) > 0 {
+		// (the values of the case are not changed: c is a copy, its slice is re-made)
+		vals := append([]gen.Hex(nil), c.Values...)
+		for _, lk := range c.Like {
+			x, err := buildLike(w, "alice", lk)
+			if err != nil {
+				vs.Add("harness:resolve", "%v", err)
+				return
+			}
+			vals = append(vals, x)
+			classes = append(classes, "plain:looks-like-searchable-ciphertext", "plain:looks-like-searchable-ciphertext:"+lk.Shape)
+		}
+		c.Values = vals
+	}
 	for vi, x := range c.Values {
 		if len(x) == 0 {
 			classes = append(classes, "plain:empty")
@@ -269,12 +285,40 @@ func genHCase(t *rapid.T) HCase {
 		}
 		c.Values = append(c.Values, v)
 	}
+	if rapid.IntRange(0, 2).Draw(t, "like") == 0 {
+		var nonEmpty []gen.Hex
+		for _, v := range c.Values {
+			if len(v) > 0 {
+				nonEmpty = append(nonEmpty, v)
+			}
+		}
+		if len(nonEmpty) > 0 {
+			pick := func(l string) gen.Hex {
+				return append(gen.Hex{}, nonEmpty[rapid.IntRange(0, len(nonEmpty)-1).Draw(t, l)]...)
+			}
+			lk := Like{Shape: rapid.SampledFrom([]string{"copy", "splice", "foreign", "index-then-bytes"}).Draw(t, "like.shape")}
+			lk.EnvKind = rapid.SampledFrom(fix.Kinds).Draw(t, "like.envkind")
+			lk.Bare = rapid.IntRange(0, 3).Draw(t, "like.bare") == 0
+			lk.HashOf = pick("like.hash")
+			switch lk.Shape {
+			case "copy":
+				lk.EnvOf = append(gen.Hex{}, lk.HashOf...)
+			case "splice":
+				lk.EnvOf = pick("like.env")
+			case "foreign":
+				lk.EnvOf, lk.EnvBy = pick("like.env"), "bobby"
+			default:
+				lk.Tail = rapid.SliceOfN(rapid.Byte(), 0, 40).Draw(t, "like.tail")
+			}
+			c.Like = append(c.Like, lk)
+		}
+	}
 	return c
 }
 
 func TestHashes(t *testing.T) {
 	R.Rule("TestHashes", "2-4 plaintexts (G-bytes classes; deliberate duplicates, prefixes/extensions of one another, empty) are indexed for alice and bobby through every entry point (SearchableEncryptor, the proxies' write chain, SearchableEncryptor fed a client-side envelope, translator EncryptSearchable / EncryptSymSearchable / GenerateQueryHash, library composition). Oracles: first byte 0x7f, first 33 bytes equal 0x7f||HMAC-SHA256(client key, plaintext) computed independently; pairwise: same client and plaintext => same index, different plaintext => different, different client => different; owner reads the plaintext through the searchable column chain; a value carrying another plaintext's index is never revealed as plaintext by a hash-verifying reveal entry point. Non-trivial = the case holds a duplicated plaintext")
-	hx.Checks(40, 3000)
+	hx.Checks(80, 3000)
 	rapid.Check(t, func(rt *rapid.T) {
 		c := genHCase(rt)
 		vs, nt, cl := CheckHashes(c)
